@@ -111,7 +111,13 @@ def packets (impl : String) : P Verdict := do
          tag := "+".intercalate tags ++ (if nflows > 1 then ":multi" else ":one"),
          model := model, spec := match specOk with | none => "-" | some true => "ok" | some false => "violated" }
 
+/-- `C08.pool <workers> <segments> <sequential results>` — the per-worker path with idle gaps between the
+segments: the pool must deliver exactly what the sequential analyzer reports for the same segments. -/
+def pool (impl : String) : P Verdict := do
+  let n ← nat; let k ← nat; let seq ← text
+  pure (verdictOf impl seq (some seq) [] s!"pool:n{n}:segs{if k > 1 then "N" else "1"}")
+
 def handlers : List (String × (String → P Verdict)) :=
-  [("C08.rd", reader), ("C08.pk", packets)]
+  [("C08.rd", reader), ("C08.pk", packets), ("C08.pool", pool)]
 
 end Huginn.Drv.C08
